@@ -126,17 +126,17 @@ def check_forcing_never_refuses(ctx, fx, cfg, rule):
     for kind, cf, _key in chan.submit_closures(fx):
         if kind != "forcing" or cf is None:
             continue
-        ups = cf.get("upvars", [])
-        if not any("futures_channel::mpsc::Sender<" in u for u in ups):
-            continue
-        n += 1
-        b = Body(cf)
-        enq = [t for _bi, t in b.normal_calls() if chan.is_enqueue(t)]
-        fresh = bool(enq)
-        for t in enq:
-            os_ = b.origins(t["args"][0], through_calls=False)
-            fresh = fresh and bool(os_) and all(o.kind == "call" and (b.call_at(o).get("callee") or "").endswith("Clone::clone") and "mpsc::Sender<" in " ".join(b.call_at(o).get("argtys", [])) for o in os_)
-        ctx.require(fresh, rule, "forcing-uses-fresh-sender:%s@%s" % (cf["def"], cfg), "the bounded forcing closure must enqueue through a Sender clone made for this payload (a long-lived handle that is still parked refuses the next forced payload with Full: self-stop / self-restart fail and interval timers end while the actor is alive)", fn=cf["def"], site=cf["loc"], detail={"enqueues": [t["callee"].split("::")[-1] for t in enq]})
+        # one view per instantiation: the closure may be written once in a generic helper for both kinds of queue
+        for ups, b in chan.instance_bodies(ctx, fx, cf):
+            if not any("futures_channel::mpsc::Sender<" in u for u in ups):
+                continue
+            n += 1
+            enq = [t for _bi, t in b.normal_calls() if chan.is_enqueue(t)]
+            fresh = bool(enq)
+            for t in enq:
+                os_ = b.origins(t["args"][0], through_calls=False)
+                fresh = fresh and bool(os_) and all(o.kind == "call" and (b.call_at(o).get("callee") or "").endswith("Clone::clone") and "mpsc::Sender<" in " ".join(b.call_at(o).get("argtys", [])) for o in os_)
+            ctx.require(fresh, rule, "forcing-uses-fresh-sender:%s@%s" % (cf["def"], cfg), "the bounded forcing closure must enqueue through a Sender clone made for this payload (a long-lived handle that is still parked refuses the next forced payload with Full: self-stop / self-restart fail and interval timers end while the actor is alive)", fn=cf["def"], site=cf["loc"], detail={"enqueues": [t["callee"].split("::")[-1] for t in enq]})
     ctx.floor(rule, "bounded forcing closures (%s)" % cfg, n, 1)
 
 
